@@ -110,6 +110,9 @@ func genAdmin(c *cf.Case, r *cf.Rng, prop string) {
 				f.Partition = int32(r.Range(0, np-1))
 			case 3:
 				f.Do = "missing-block"
+				if api == "DeleteRecords" && r.Bool() {
+					f.Do = "missing-partition"
+				}
 			case 4:
 				f.Do = r.PickS("drop-before", "drop-after")
 			default:
